@@ -383,6 +383,12 @@ func (s *Store[H]) DeleteRange(ctx context.Context, from, to uint64) error {
 	// Delete the headers without automatic tail updates
 	actualTo, _, deleteErr := s.deleteRangeRaw(ctx, from, to)
 	if wipe && deleteErr == nil {
+		// a header appended at `to` while the deletion was running is the new tail: nothing to wipe then
+		if _, err := s.getByHeight(ctx, to); err == nil {
+			wipe = false
+		}
+	}
+	if wipe && deleteErr == nil {
 		// every header is gone, drop the pointers as well
 		if err := s.wipe(ctx); err != nil {
 			return fmt.Errorf("header/store: wipe: %w", err)
